@@ -3,6 +3,9 @@ package main
 import (
 	"encoding/json"
 	"fmt"
+	"github.com/mmcloughlin/avo/build"
+	"github.com/mmcloughlin/avo/ir"
+	"github.com/mmcloughlin/avo/operand"
 	"go/ast"
 	"go/parser"
 	"go/token"
@@ -316,6 +319,7 @@ func resolveObs(comp func() gotypes.Component, path []pstep) (s string) {
 
 func c07(c *Ctx) {
 	o := c.Out
+	defer derefBuildCheck(c)
 	rng := NewRNG(c.Seed + 700)
 	n := 250
 	if c.Thorough() {
@@ -627,4 +631,59 @@ func addrOfComponent(c gotypes.Component) string {
 		return fmt.Sprintf("(%s, %s)", cStr(m.Symbol.Name), cZ(int64(m.Disp)))
 	}
 	return "(\"<error>\"%string, 0)"
+}
+
+// derefBuildCheck: Context.Dereference, the builder-level way to reach a pointee.  Every call must load the
+// pointer in the function being built (a fresh register written by a MOVQ from the pointer's own address
+// in THIS function) and address the pointee relative to that register; in a second function with the same
+// signature, and for a second call in one function, just the same.
+func derefBuildCheck(c *Ctx) {
+	o := c.Out
+	ctx := build.NewContext()
+	sig := "func(total *uint64, p *struct{ X, Y uint64 }, q *[4]uint32)"
+	type call struct{ fn, what string }
+	idx := o.AddCase(Case{Key: "layout:deref-builder", Desc: "Context.Dereference in two functions of one file and twice in one function: " + sig, Input: map[string]any{"signature": sig}, Nontrivial: true})
+	check := func(fnName, param, field string, wantDisp int) {
+		before := len(curFile(ctx).Functions()[len(curFile(ctx).Functions())-1].Instructions())
+		comp := ctx.Dereference(ctx.Param(param))
+		if field != "" {
+			comp = comp.Field(field)
+		} else {
+			comp = comp.Index(2)
+		}
+		b, err := comp.Resolve()
+		fn := curFile(ctx).Functions()[len(curFile(ctx).Functions())-1]
+		is := fn.Instructions()
+		if err != nil {
+			o.Plan.GoViolations = append(o.Plan.GoViolations, GoViolation{Key: "layout:deref-builder", Desc: fmt.Sprintf("case %d: %s: Dereference(Param(%s)) does not resolve: %v", idx, fnName, param, err)})
+			return
+		}
+		base, _ := b.Addr.Base.(reg.Register)
+		loaded := false
+		for _, in := range is[before:] {
+			if in.Opcode == "MOVQ" && len(in.Operands) == 2 {
+				if m, isM := in.Operands[0].(operand.Mem); isM && m.Symbol.Name == param && m.Base == reg.FramePointer {
+					if r, isR := in.Operands[1].(reg.Register); isR && base != nil && r.ID() == base.ID() {
+						loaded = true
+					}
+				}
+			}
+		}
+		if base == nil || !loaded || b.Addr.Disp != wantDisp || b.Addr.Symbol.Name != "" {
+			o.Plan.GoViolations = append(o.Plan.GoViolations, GoViolation{Key: "layout:deref-builder", Desc: fmt.Sprintf("case %d: in %s, Dereference(Param(%s)) yields %s; the pointer is not loaded into that base register by this call (instructions added: %d), or the pointee offset is not %d", idx, fnName, param, b.Addr.Asm(), len(is)-before, wantDisp), Replay: map[string]any{"function": fnName, "param": param}})
+		}
+	}
+	for _, fnName := range []string{"A", "B"} {
+		ctx.Function(fnName)
+		ctx.SignatureExpr(sig)
+		check(fnName, "p", "Y", 8)
+		check(fnName, "q", "", 8)
+		check(fnName, "p", "X", 0) // a second dereference of the same pointer
+		ctx.RET()
+	}
+}
+
+func curFile(ctx *build.Context) *ir.File {
+	f, _ := ctx.Result()
+	return f
 }
